@@ -177,9 +177,122 @@ BondChecks(k, e, s, t, g) ==
   ELSE {}
 
 -----------------------------------------------------------------------------
+(* Positions family: C08 C09 C10 (C11 is an invariant) *)
+
+ONE18 == Pow(N(10), 18)
+\* a * (1 + pct/100) on Dec mantissas
+Widen(a, pct) == (a ** N(100 + pct)) // N(100)
+
+LevKeysOfOwner(s, u) == {k \in LevPositions(s) : s.lev.positions[k].owner = u}
+LevAltered(s, t, k)  == \/ k \notin LevPositions(t)
+                        \/ t.lev.positions[k].lp # s.lev.positions[k].lp
+                        \/ t.lev.positions[k].collateral # s.lev.positions[k].collateral
+\* force close is allowed: health at or below the safety factor, or the LP price has reached the stop-loss.
+\* The health is the real GetPositionHealth probed on the pre-state; between the probe and the code's own
+\* evaluation only interest accrual and (inside one message) earlier closes intervene, hence the 5 % band:
+\* the check is decisive only for positions that were clearly healthy.
+LevCloseAllowed(s, k) ==
+  LET pos == s.lev.positions[k]
+      pool == s.lev.pools[pos.pool] IN
+  \/ pos.probeHealth \prec Zero                       \* probe failed: undecided
+  \/ pos.probeHealth \preceq Widen(s.lev.safetyFactor, 5)
+  \/ pos.stopLoss \succ Zero /\ (pool.lpPrice \prec Zero \/ pool.lpPrice \preceq Widen(pos.stopLoss, 5))
+
+MtpAltered(s, t, k) == \/ k \notin Mtps(t)
+                       \/ t.perp.mtps[k].collateral # s.perp.mtps[k].collateral
+                       \/ t.perp.mtps[k].liab # s.perp.mtps[k].liab
+\* oracle price (Dec mantissa) of the trading asset of an MTP, "none" if there is no price
+TradingPrice(s, m) ==
+  LET d == m.tradingAsset IN
+  IF d \in DOMAIN s.oracle.assetInfo /\ s.oracle.assetInfo[d].display \in DOMAIN s.oracle.lookup /\ s.oracle.lookup[s.oracle.assetInfo[d].display].found
+    THEN s.oracle.lookup[s.oracle.assetInfo[d].display].price ELSE "none"
+MtpCloseAllowed(s, k) ==
+  LET m == s.perp.mtps[k]
+      px == TradingPrice(s, m) IN
+  \/ m.probeHealth \prec Zero
+  \/ m.probeHealth \preceq Widen(s.perp.safetyFactor, 5)
+  \/ px = "none"
+  \/ m.stopLoss \succ Zero /\ (IF m.side = "long" THEN px \preceq m.stopLoss ELSE px \succeq m.stopLoss)
+  \/ m.takeProfit \succ Zero /\ (IF m.side = "long" THEN px \succeq m.takeProfit ELSE px \preceq m.takeProfit)
+
+PositionChecks(k, e, s, t, g) ==
+  LET levThird == k = "Begin" \/ (k = "Tx" /\ e.name = "leveragelp.MsgClosePositions")
+      \* a long block-time gap lets arbitrary interest accrue before the sweep looks at a position: undecided
+      gapOK == t.chain.t - s.chain.t <= 86400 * 30
+      badLev == {x \in LevPositions(s) : LevAltered(s, t, x) /\ ~LevCloseAllowed(s, x)}
+      perpThird == k = "Tx" /\ e.name = "perpetual.MsgClosePositions"
+      badMtp == {x \in Mtps(s) : MtpAltered(s, t, x) /\ ~MtpCloseAllowed(s, x)}
+      owners == {s.lev.positions[x].owner : x \in LevPositions(s)} \cup {s.perp.mtps[x].owner : x \in Mtps(s)}
+      untouchedOwners == {u \in owners : (\A x \in LevKeysOfOwner(s, u) : ~LevAltered(s, t, x))
+                                          /\ (\A z \in {y \in Mtps(s) : s.perp.mtps[y].owner = u} : ~MtpAltered(s, t, z))
+                                          /\ (u # e.sender)}
+      badFunds == {u \in untouchedOwners : Get(s.bank, u, << >>) # Get(t.bank, u, << >>)}
+      newLev == {x \in LevPositions(t) : x \notin LevPositions(s) \/ t.lev.positions[x].lp # s.lev.positions[x].lp}
+      newMtp == {x \in Mtps(t) : x \notin Mtps(s) \/ t.perp.mtps[x].custody \succ s.perp.mtps[x].custody}
+  IN (IF levThird /\ gapOK THEN
+        { Chk("C10", "C10.step.lev_third_party_close_only_when_allowed", \E x \in LevPositions(s) : LevAltered(s, t, x), badLev = {}, Bad(badLev)) }
+      ELSE {})
+     \cup
+     (IF perpThird THEN
+        { Chk("C10", "C10.step.perp_third_party_close_only_when_allowed", \E x \in Mtps(s) : MtpAltered(s, t, x), badMtp = {}, Bad(badMtp)) }
+      ELSE {})
+     \cup
+     (IF (levThird \/ perpThird) /\ k = "Tx" THEN
+        { Chk("C10", "C10.step.untouched_owners_keep_their_funds", owners # {}, badFunds = {}, Bad(badFunds)) }
+      ELSE {})
+     \cup
+     (IF TxOK(k, e, "leveragelp.MsgOpen") THEN
+        { Chk("C10", "C10.step.lev_open_starts_healthy", TRUE,
+              /\ newLev # {}
+              /\ \A x \in newLev : /\ t.lev.positions[x].owner = e.sender
+                                   /\ t.lev.positions[x].health \succ t.lev.safetyFactor
+                                   /\ (t.lev.positions[x].probeHealth \prec Zero \/ t.lev.positions[x].probeHealth \succ t.lev.safetyFactor), Bad(newLev)) }
+      ELSE {})
+     \cup
+     (IF TxOK(k, e, "perpetual.MsgOpen") THEN
+        { Chk("C10", "C10.step.perp_open_starts_healthy", TRUE,
+              \A x \in Mtps(t) : (t.perp.mtps[x].id = Resp(e, "id", "") /\ t.perp.mtps[x].owner = e.sender) =>
+                                   /\ t.perp.mtps[x].health \succ t.perp.safetyFactor
+                                   /\ (t.perp.mtps[x].probeHealth \prec Zero \/ t.perp.mtps[x].probeHealth \succ t.perp.safetyFactor), Resp(e, "id", "")) }
+      ELSE {})
+     \cup
+     \* C08: a full close / liquidation removes the position and leaves nothing committed at its address
+     (IF TxOK(k, e, "leveragelp.MsgClose") THEN
+        LET key == e.sender \o "/" \o e.args.id IN
+        { Chk("C08", "C08.step.close_reduces_position_by_requested_lp", key \in LevPositions(s),
+              key \in LevPositions(s) =>
+                 IF e.args.lp = s.lev.positions[key].lp
+                   THEN key \notin LevPositions(t) /\ \A d \in ShareDenoms(t) : Committed(t, s.lev.positions[key].posAddr, d) = Zero
+                   ELSE key \in LevPositions(t) /\ s.lev.positions[key].lp -- t.lev.positions[key].lp = e.args.lp, key) }
+      ELSE {})
+
+-----------------------------------------------------------------------------
+(* C03 at the level of the whole keeper flow (fee skims included): on a constant-product pool whose share  *)
+(* supply did not change in the step (swaps only), the weighted product of the reserves does not decrease,  *)
+(* up to one base unit per reserve and the power approximation's 1e-8 precision when the weights differ.   *)
+(* By induction this is what makes round trips and split trades unprofitable.                              *)
+RECURSIVE GcdI(_, _)
+GcdI(a, b) == IF b = 0 THEN a ELSE GcdI(b, a % b)
+KProductChecks(k, e, s, t, g) ==
+  LET ps == {p \in Pools(s) \cap Pools(t) : /\ ~s.amm.pools[p].useOracle
+                                            /\ s.amm.pools[p].shares = t.amm.pools[p].shares
+                                            /\ Cardinality(PoolAssets(s, p)) = 2
+                                            /\ \E d \in PoolAssets(s, p) : Reserve(s, p, d) # Reserve(t, p, d)}
+      Dropped(p) == LET d1 == CHOOSE d \in PoolAssets(s, p) : TRUE
+                    d2 == CHOOSE d \in PoolAssets(s, p) : d # d1
+                    w1 == s.amm.pools[p].assets[d1].weightI  w2 == s.amm.pools[p].assets[d2].weightI
+                    gg == GcdI(w1, w2)  a == w1 \div gg  b == w2 \div gg
+                    lhs == Pow((Reserve(t, p, d1) ++ One) ** (IF a = b THEN One ELSE N(100000000)), a) ** Pow((Reserve(t, p, d2) ++ One) ** (IF a = b THEN One ELSE N(100000000)), b)
+                    rhs == Pow(Reserve(s, p, d1) ** (IF a = b THEN One ELSE N(99999999)), a) ** Pow(Reserve(s, p, d2) ** (IF a = b THEN One ELSE N(99999999)), b)
+                IN lhs \prec rhs
+      bad == {p \in ps : Dropped(p)}
+  IN { Chk("C03", "C03.step.weighted_product_never_decreases", ps # {}, bad = {}, Bad(bad)) }
+
+-----------------------------------------------------------------------------
 LedgerChecks(k, e, s, t, g) ==
   JoinChecks(k, e, s, t, g) \cup ExitChecks(k, e, s, t, g) \cup ShareMoveChecks(k, e, s, t, g) \cup BondChecks(k, e, s, t, g)
 
 StepChecks(k, e, s, t, g) ==
   C15StepChecks(k, e, s, t, g) \cup C12StepChecks(k, e, s, t, g) \cup C18StepChecks(k, e, s, t, g) \cup LedgerChecks(k, e, s, t, g)
+    \cup PositionChecks(k, e, s, t, g) \cup KProductChecks(k, e, s, t, g)
 =============================================================================
